@@ -50,7 +50,34 @@ def run_model(tier, seed, coverage=False):
     # never starves the mode x normaliser-class cross product (MC_FeatureAlgebra!SLNormCfgs)
     pairs = [(v[0], v[1]) for v in states]
     pairs.sort(key=lambda t: 0 if (t[0]["sl"] != "npa" and t[1]["valid"]) else 1)
-    return r, pairs
+    # ... and the rest is dealt round-robin over structural families (NLDF version, SDMX kind incl. the number of ratios of a
+    # Full settings object, whether it has l=1 terms and several powers, fractional-Laplacian groups), so that a capped replay
+    # reaches every family instead of exhausting the first ones TLC happened to print
+    def family(t):
+        c = t[0]
+        sd = c["sdmx"]
+        full = sd.get("full") or []
+        fl = c["fl"]
+        return (c["nldf"]["ver"] if c["nldf"] != [] else "-", sd["kind"], len(full),
+                any(sum(e["cnt"][2:]) > 0 for e in full[:-1]) if full else False,
+                any(len(set(e["pows"])) > 1 for e in full) if full else False,
+                bool(fl["present"]), len(fl.get("lddots", [])) > 0, bool(t[1]["valid"]))
+    head = [t for t in pairs if t[0]["sl"] != "npa" and t[1]["valid"]]
+    rest = [t for t in pairs if not (t[0]["sl"] != "npa" and t[1]["valid"])]
+    groups = {}
+    for t in rest:
+        groups.setdefault(family(t), []).append(t)
+    order = []
+    lists = [groups[k] for k in sorted(groups, key=repr)]
+    i = 0
+    while any(lists):
+        for g in lists:
+            if i < len(g):
+                order.append(g[i])
+        i += 1
+        if i > max(len(g) for g in lists):
+            break
+    return r, head + order
 
 
 def build_nldf(n):
